@@ -128,7 +128,7 @@ def step (st : St) (ws : List String) : St × String :=
           match getnextF st.plan img idx with
           | .error f => fault f
           | .ok (.item o, idx', es) => fin img (st.kept + 2) s!"allocs={attempts es} obj {idx'} {hx o.name} {hx o.data}"
-          | .ok (.done, idx', es) => fin img st.kept s!"allocs={attempts es} end {idx'} ENOENT"
+          | .ok (.done, idx', es) => fin img st.kept s!"allocs={attempts es} end {idx'} {(getnextErrno idx').name}"
           | .ok (.enomem, idx', es) => fin img st.kept s!"allocs={attempts es} false {idx'} ENOMEM"
         | none => (st, "bad-op")
       | ["walk"] =>
